@@ -1,7 +1,7 @@
 //verif:pkg pkg/core
 //verif:use store,corehelp,aferostub
 //verif:assume bundle download under damage: a bundle of two files (a: 70 bytes = two leaves at leaf size 64, with symbolic bytes at 0, 63, 64; b: 3 bytes) uploaded through the real code; then one blob of the blob store - the root or a leaf of either file - has a byte flipped (symbolic position among {0, 1, last}, symbolic bits), is truncated to a symbolic length, emptied, replaced by the other leaf, or deleted; the bundle is downloaded by the real Publish into the real local file system store (pkg/storage/localfs) over an in-memory afero file system
-//verif:cover VerifC03Download leaf-damaged root-damaged download-failed
+//verif:cover VerifC03Download leaf-damaged root-damaged download-failed destination-write-cut-short
 package core
 
 import (
@@ -63,7 +63,24 @@ func VerifC03Download() {
 	}
 	orig, ok := blob.data[victim]
 	vAssert(ok, "victim-exists")
-	switch vChoose("damage", 4) {
+	fs := newVFs()
+	dmg := vChoose("damage", 5)
+	if dmg == 4 {
+		// no damage to the blobs: the destination file system cuts the write of a file short (disk full)
+		vCover("destination-write-cut-short")
+		room := vInt("accepted", 0, 69)
+		fs.writeFault = func(name string, written int) int {
+			if vNorm(name) != "a" {
+				return -1
+			}
+			if room-written < 0 {
+				return 0
+			}
+			return room - written
+		}
+	}
+	switch dmg {
+	case 4:
 	case 0: // some bits of one byte flipped
 		nb := append([]byte{}, orig...)
 		pos := []int{0, 1, len(nb) - 1}[vChoose("pos", 3)]
@@ -84,12 +101,14 @@ func VerifC03Download() {
 		i := blob.find(victim)
 		blob.keys = append(blob.keys[:i], blob.keys[i+1:]...)
 	}
-	fs := newVFs()
 	dst := localfs.New(fs, localfs.WithLogger(zap.NewNop()), localfs.WithRetry(false))
 	down := NewBundle(Repo("r"), ContextStores(stores), ConsumableStore(dst), BundleID(up.BundleID), Logger(zap.NewNop()), ConcurrentFileDownloads(1), ConcurrentFilelistDownloads(1))
 	perr := Publish(ctx, down)
 	if perr != nil {
 		vCover("download-failed")
+	}
+	if dmg == 4 {
+		vAssert(perr != nil, "download-cut-short-by-the-destination-is-reported")
 	}
 	want := map[string][]byte{"a": ca, "b": cb}
 	// every write into the destination carries the stored bytes of that position
